@@ -7,7 +7,7 @@ MODEL_QUALID = "Model.RateLimiter.run_script"
 NCFG = 5
 PER_EV = 4
 FORMAT = ("script [window type 0=fixed 1=sliding log 2=sliding counter; limit; period; timeout; n + 1000*mode; (op a b)*] "
-          "durations z: z < 10^15 = z ms, 10^15 <= z < 2*10^15 = Duration::MAX, z >= 2*10^15 = Duration::from_secs(z - 2*10^15); "
+          "limit >= 10^15 = usize::MAX; durations z: z < 10^15 = z ms, 10^15 <= z < 2*10^15 = Duration::MAX, z >= 2*10^15 = Duration::from_secs(z - 2*10^15); "
           "mode 0 = every caller through its own fresh clone, 1 = all callers through ONE long-lived service value, 2 = clone chain, 3 = mixed; "
           "op 1=Poll a 2=Drop a 3=Advance a(ms, 1 ms at a time) 4=Complete a b(0 ok,1 err,2 panic) 5=Call a (create the call future without polling it) 6=Jump a(ms, one clock step). "
           "trace per event [r; started = number of inner call()s made since the end of the previous event; in-flight; wake mask]; r: -1 no poll, 0 pending, 1 Ok, 2 Err(Inner), 3 RateLimited, 5 panicked, 9 nothing to poll")
@@ -253,6 +253,11 @@ def corpus():
     # sliding log at the edge of what Instant can hold: window end = i64::MAX s exactly (fine), one second more (never frees)
     for k in (0, 1):
         out.append([1, 1, secs(2 ** 63 - 1 - ORIGIN_S + k), 0, 4, 1, 0, 0, 6, 50, 0, 1, 1, 0, 6, 999, 0, 1, 2, 0, 6, 1, 0, 1, 3, 0])
+    # limit_for_period = usize::MAX ("unlimited"): everybody is admitted at once; the sliding log used to panic in layer()
+    # (VecDeque::with_capacity(limit), fixed by 03e3ffe). Only the sentinel is ever used: nothing between 2^20 and 2^59.
+    for wt in (0, 1, 2):
+        out.append(list(LIMIT_MAX_REPRODUCER[wt]))
+        out.append([wt, E15, 1000, 100, 1004, 1, 0, 0, 1, 1, 0, 6, 999, 0, 1, 2, 0, 6, 1, 0, 1, 3, 0])
     # metronome: fixed window, limit 1, period 7: one fresh caller every 6 ms; a window that refreshes 1 ms early admits all of them
     out.append(list(METRONOME_REPRODUCER))
     # 60-day quota window crossed by clock jumps (2^32 ms = 49.7 days must not refresh it)
@@ -265,6 +270,7 @@ def corpus():
 
 
 MAX_PERIOD_REPRODUCER = {wt: [wt, 1, E15, 0, 1005, 1, 0, 0, 1, 1, 0, 6, 50, 0, 1, 2, 0, 6, 10 ** 9, 0, 1, 3, 0, 1, 4, 0] for wt in (0, 1, 2)}
+LIMIT_MAX_REPRODUCER = {wt: [wt, E15, 50, 0, 4, 1, 0, 0, 1, 1, 0, 1, 2, 0, 3, 1, 0, 1, 3, 0] for wt in (0, 1, 2)}
 METRONOME_REPRODUCER = [0, 1, 7, 0, 8] + [x for k in range(8) for x in (1, k, 0, 3, 6, 0)]
 
 
@@ -412,6 +418,10 @@ def extreme_script(rng):
     P = rng.choice([0, 0, E15, E15, secs(2 ** 63), secs(2 ** 64 - 1), secs(2 ** 62), secs(edge), secs(edge + 1), secs(edge - 1), secs(edge - 2)])
     timeout = rng.choice([0, 0, 50, 1000, E15, E15, secs(2 ** 63)])
     limit = rng.choice([1, 1, 2, 3])
+    if rng.random() < 0.2:
+        limit = E15                      # usize::MAX
+        if rng.random() < 0.5:
+            P = rng.choice([7, 50, 1000])
     n = rng.randint(2, 8)
     s = [wt, limit, P, timeout, n + 1000 * rng.choice([0, 1, 2, 3])]
     for _ in range(rng.randint(3, 25)):
@@ -521,7 +531,7 @@ def classify(s, t):
     out = [("fixed", "sliding_log", "sliding_counter")[min(s[0], 2)], "mode_%d" % (s[4] // 1000),
            "period_%s" % ("zero" if P == 0 else "duration_max" if P == DUR_MAX else "instant_overflow_range" if P >= 10 ** 18 else "days" if P >= 86400000 else
                           "1s_to_60s" if P >= 1000 else "pow2" if P & (P - 1) == 0 else "f64_two_periods_below_2" if P in (559, 561, 672, 801) else "non_dyadic"),
-           "limit_%s" % ("1_4" if s[1] <= 4 else "5_8" if s[1] <= 8 else "large"), "timeout_%s" % ("zero" if s[3] == 0 else "duration_max" if dur(s[3]) == DUR_MAX else "below" if dur(s[3]) < P else "equal" if dur(s[3]) == P else "above")]
+           "limit_%s" % ("1_4" if s[1] <= 4 else "5_8" if s[1] <= 8 else "usize_max" if s[1] >= E15 else "large"), "timeout_%s" % ("zero" if s[3] == 0 else "duration_max" if dur(s[3]) == DUR_MAX else "below" if dur(s[3]) < P else "equal" if dur(s[3]) == P else "above")]
     d = decode(s, t)
     if d:
         if any(o[0] == 3 for (_, o) in d):
